@@ -224,6 +224,8 @@ def run(col, configs, tier):
         guarded(col, X.rule_mixed_base_scaling, facts)
         guarded(col, X.rule_incremented_digit_in_range, facts)
         guarded(col, X.rule_lemire_precision_and_window, facts)
+        from rules import syntax as S8
+        guarded(col, S8.rule_getters, facts)
         from rules import c15
         guarded(col, c15.rule_parse_specials, facts)
         guarded(col, c15.rule_write_specials, facts)
